@@ -763,7 +763,7 @@ func (fr *Frame) enterLoop(st *State, li *loopInfo, run *loopRun) *State {
 	if spec != nil {
 		sc := fr.loopScope(st, loopAlloc, st)
 		for i, inv := range spec.Invariants {
-			g := fr.evalBool(sc, inv.E)
+			g, _ := fr.tryEvalBool(sc, inv.E, "loop invariant "+lname+"."+clauseName(inv, i))
 			fr.oblige(st, "inv-entry", lname+"."+clauseName(inv, i), g, inv, pos)
 		}
 	}
@@ -860,8 +860,10 @@ func (fr *Frame) enterLoop(st *State, li *loopInfo, run *loopRun) *State {
 	}
 	if spec != nil {
 		sc := fr.loopScope(nst, loopAlloc, st)
-		for _, inv := range spec.Invariants {
-			fr.assume(nst, fr.evalBool(sc, inv.E))
+		for i, inv := range spec.Invariants {
+			if g, ok := fr.tryEvalBool(sc, inv.E, "loop invariant "+lname+"."+clauseName(inv, i)); ok {
+				fr.assume(nst, g)
+			}
 		}
 		for _, d := range spec.Decreases {
 			run.dec0 = append(run.dec0, fr.evalExpr(sc, d))
@@ -907,7 +909,7 @@ func (fr *Frame) backEdge(st *State, li *loopInfo, run *loopRun, from *ssa.Basic
 		for i, inv := range spec.Invariants {
 			parts := SplitConj(inv.E)
 			for k, p := range parts {
-				g := fr.evalBool(sc, p)
+				g, _ := fr.tryEvalBool(sc, p, "loop invariant "+lname+"."+clauseName(inv, i))
 				name := lname + "." + clauseName(inv, i)
 				if len(parts) > 1 {
 					name = fmt.Sprintf("%s.%d", name, k+1)
